@@ -208,8 +208,10 @@ class World:
         self.snap = cur
 
     # ---- operations --------------------------------------------------------------------------------------------------------
-    def write(self, size, step, given):
+    def write(self, size, step, given, sub=0):
         self.clock.us += STEPS[step]
+        if given and sub:
+            self.classes.add('given timestamp with sub-microsecond digits')
         if step in ('0',):
             self.classes.add('write at equal timestamp')
         if step.startswith('-'):
@@ -217,7 +219,7 @@ class World:
         k = len(self.written)
         rec = record(self.mode, k, size)
         will_roll = self.writer.write_file is None
-        self.writer.write(rec, timestamp=self.clock.time() if given else None)
+        self.writer.write(rec, timestamp=(self.clock.us * 10 + sub) / 10_000_000 if given else None)
         self.written.append(size)
         if will_roll and k > 0 and step in ('0', '-us', '-ms', '-s'):
             self.classes.add('roll-over on equal or earlier timestamp')
